@@ -33,6 +33,7 @@ typedef struct vctx {
     uint8_t ssid[64]; size_t ssidlen;
     uint16_t rate; int ratefail;
     int rssi; int rssifail;
+    long mtufailat, macfailat;          /* > 0: the n-th call of that getter from now fails (once) */
     uint32_t phy; int phyok;            /* lltd_port_get_wifi_phy_medium succeeds only when phyok is set */
 } vctx;
 #endif
